@@ -19,17 +19,17 @@ ASSUMPTIONS = ['touch -d @N sets the mtime to N seconds after the epoch; find -p
 
 def run(ctx):
     F = ctx.F['cli']
-    C19.needs_transfer_rule(ctx, F, 'C14.R1')
+    ctx.attempt(C19.needs_transfer_rule, ctx, F, 'C14.R1')
     ctx.rule('C14.R2', 'mtime written to the destination == source FileMeta.mtime of the same path (pure copy chain)', floor=3)
     ctx.rule('C14.R3', 'units: whole epoch seconds at every writer/reader pair', floor=4)
     ctx.rule('C14.R4', 'the result of setting the mtime is not discarded', floor=2)
     ctx.rule('C14.R6', 'every local FileMeta takes size and mtime from one link-following stat of the path that is delivered', floor=1)
-    C19.plan_rules(ctx, F, 'C14.R5')
-    C19.excluded_callers(ctx, F, 'C14.R5')     # the listings the plan compares are matched against excludes by relative path only
-    r2(ctx, F)
-    r3(ctx, F)
-    r4(ctx, F)
-    r6(ctx, F)
+    ctx.attempt(C19.plan_rules, ctx, F, 'C14.R5')
+    ctx.attempt(C19.excluded_callers, ctx, F, 'C14.R5')  # the listings the plan compares are matched against excludes by relative path only
+    ctx.attempt(r2, ctx, F)
+    ctx.attempt(r3, ctx, F)
+    ctx.attempt(r4, ctx, F)
+    ctx.attempt(r6, ctx, F)
 
 
 def loop_mtime_ok(F, body, arg_op, max_hops=3):
